@@ -832,6 +832,9 @@ func (e *Engine) call(fi *fnInfo, st *State, in *ssa.Call) []*State {
 		}
 		return []*State{st}
 	}
+	if outs := e.intPredicateCall(st, in, callee); outs != nil {
+		return outs
+	}
 	switch callee.Name() {
 	case "NewErrorLexer", "NewError":
 		setRes(st, intVal(1))
@@ -870,6 +873,83 @@ func (e *Engine) reaches(fn *ssa.Function) bool {
 		}
 	}
 	return false
+}
+
+// intPredicateCall: a pure predicate of the module over one integer argument that is one of a few known values
+// (isBlockEnd(p.tt)): its body is folded for each value; the call yields one state per truth value with the
+// argument (and the field it was loaded from) narrowed accordingly.
+func (e *Engine) intPredicateCall(st *State, in *ssa.Call, callee *ssa.Function) []*State {
+	cc := &in.Call
+	res := callee.Signature.Results()
+	if res.Len() != 1 || len(callee.FreeVars) > 0 || len(callee.Blocks) == 0 || len(callee.Blocks) > 16 || fnPkg(callee) == nil || !core.InModule(fnPkg(callee)) {
+		return nil
+	}
+	if b, ok := res.At(0).Type().Underlying().(*types.Basic); !ok || b.Kind() != types.Bool {
+		return nil
+	}
+	args := make([]constant.Value, len(cc.Args))
+	vi := -1
+	var set AbsVal
+	for i, a := range cc.Args {
+		av := e.eval(st, a)
+		if c, ok := av.constInt(); ok && (isAnyInt(a.Type()) || isBoolType(a.Type())) {
+			if isBoolType(a.Type()) {
+				args[i] = constant.MakeBool(c != 0)
+			} else {
+				args[i] = constant.MakeInt64(c)
+			}
+			continue
+		}
+		if av.k == vInt && len(av.ints) >= 2 && len(av.ints) <= 64 && isAnyInt(a.Type()) && vi < 0 {
+			vi, set = i, av
+			continue
+		}
+		if i < len(callee.Params) {
+			if refs := callee.Params[i].Referrers(); refs == nil || len(*refs) == 0 {
+				continue // unused parameter
+			}
+		}
+		return nil
+	}
+	if vi < 0 {
+		return nil
+	}
+	var yes, no []int64
+	for _, x := range set.ints {
+		args[vi] = constant.MakeInt64(x)
+		v, ok := evalPure(e, callee, args, 0)
+		if !ok || v.Kind() != constant.Bool {
+			return nil
+		}
+		if constant.BoolVal(v) {
+			yes = append(yes, x)
+		} else {
+			no = append(no, x)
+		}
+	}
+	narrow := func(s *State, keep []int64, truth bool) *State {
+		nv := intVal(keep...)
+		if set.atom != "" {
+			if hv, ok := s.heap[set.atom]; ok && hv.k == vInt && len(hv.ints) == len(set.ints) {
+				s.heap[set.atom] = nv
+			}
+			nv.atom = set.atom
+		}
+		s.setv(cc.Args[vi], nv)
+		s.setv(in, boolVal(truth))
+		s.note("%s: %s(%s) is %v", e.prog.Position(in.Pos()), callee.Name(), shortVal(cc.Args[vi]), truth)
+		return s
+	}
+	switch {
+	case len(no) == 0:
+		st.setv(in, boolVal(true))
+		return []*State{st}
+	case len(yes) == 0:
+		st.setv(in, boolVal(false))
+		return []*State{st}
+	}
+	t := st.clone()
+	return []*State{narrow(t, yes, true), narrow(st, no, false)}
 }
 
 // enumResult: abstract result of an opaque call: results of a module enum type may be any declared constant.
@@ -1816,4 +1896,9 @@ func (e *Engine) applySummary(s *State, x summary, usesL bool) {
 	for _, t := range ex.trace {
 		s.note("%s", t)
 	}
+}
+
+func isBoolType(t types.Type) bool {
+	b, ok := t.Underlying().(*types.Basic)
+	return ok && b.Kind() == types.Bool
 }
